@@ -90,6 +90,9 @@ func (ex *Exec) rName(fn string, arr *Term) string {
 	if v == "" {
 		v = "value"
 	}
+	if ex.simLimit >= 0 {
+		v += fmt.Sprintf("L%d", ex.simLimit)
+	}
 	return "R" + v + "." + fn + "$" + arr.Name
 }
 
